@@ -590,6 +590,11 @@ class Simulation:
             with passthrough():
                 self.before_op(self, a, op, kind)
 
+        if kind == "realkill":
+            # cross-validation mode (real child process): die for real, right here, before performing the operation
+            import signal
+
+            os.kill(os.getpid(), signal.SIGKILL)
         if kind in CRASH_KINDS:
             if kind == "interrupt":
                 op.outcome = "interrupt"
